@@ -863,10 +863,38 @@ func (x *Exec) lookup(fr *frame, i *ssa.Lookup) Value {
 	return val
 }
 
+func isScalarTerm(v Value) bool {
+	_, ok := v.(*smt.Term)
+	return ok
+}
+
+// scalarMap reports whether every stored value (and the candidate) is a plain term, in which
+// case map operations are encoded with ite terms instead of forking on key equality.
+func scalarMap(m *MapObj, extra Value) bool {
+	if extra != nil && !isScalarTerm(extra) {
+		return false
+	}
+	for _, e := range m.Entries {
+		if !isScalarTerm(e.V) {
+			return false
+		}
+	}
+	return true
+}
+
 func (x *Exec) mapGet(m MapRef, mt *types.Map, k Value) (Value, *smt.Term) {
 	zero := x.zero(mt.Elem())
 	if m.M == nil {
 		return zero, x.st.False
+	}
+	if zt, ok := zero.(*smt.Term); ok && scalarMap(m.M, nil) {
+		val, found := zt, x.st.False
+		for _, e := range m.M.Entries {
+			hit := x.st.BAnd(e.Present, x.keyEq(mt.Key(), e.K, k))
+			val = x.st.Ite(hit, e.V.(*smt.Term), val)
+			found = x.st.BOr(found, hit)
+		}
+		return val, found
 	}
 	// walk entries from newest to oldest; decide matches by branching (keeps values concrete)
 	for idx := len(m.M.Entries) - 1; idx >= 0; idx-- {
@@ -883,6 +911,19 @@ func (x *Exec) mapUpdate(m MapRef, k, v Value) {
 	if m.M == nil {
 		x.goPanic("assignment to entry in nil map")
 	}
+	if scalarMap(m.M, v) {
+		vt := v.(*smt.Term)
+		any := x.st.False
+		for _, e := range m.M.Entries {
+			hit := x.st.BAnd(e.Present, x.keyEq(m.M.KT, e.K, k))
+			e.V = x.st.Ite(hit, vt, e.V.(*smt.Term))
+			any = x.st.BOr(any, hit)
+		}
+		if !any.IsTrue() {
+			m.M.Entries = append(m.M.Entries, &mapEntry{K: k, V: v, Present: x.st.BNot(any)})
+		}
+		return
+	}
 	for _, e := range m.M.Entries {
 		c := x.st.BAnd(e.Present, x.keyEq(m.M.KT, e.K, k))
 		if x.Branch(c) {
@@ -898,11 +939,8 @@ func (x *Exec) mapDelete(m MapRef, k Value) {
 		return
 	}
 	for _, e := range m.M.Entries {
-		c := x.st.BAnd(e.Present, x.keyEq(m.M.KT, e.K, k))
-		if x.Branch(c) {
-			e.Present = x.st.False
-			return
-		}
+		hit := x.st.BAnd(e.Present, x.keyEq(m.M.KT, e.K, k))
+		e.Present = x.st.BAnd(e.Present, x.st.BNot(hit))
 	}
 }
 
